@@ -181,7 +181,7 @@ CHECKS = {
             "back-end is synced, closed and re-opened by a machine rebuilt with Import(Export) and must read back what it stored and append after it.",
             "Allow+allow and allow+block list combinations are not generated (and/or is undocumented); Multi re-activation makes Activated ambiguous "
             "and such queries are not judged; bursts faster than the write-behind are not judged for the bound; crash points are 'after Sync + close' "
-            "(a copy of an open database file is not taken); known finding C17-stale-records-below-a-hole.",
+            "(a copy of an open database file is not taken).",
             "model-based property-based testing (rapid) against a reference log, four-back-end differential through the shared oracle, round trip", "DESIGN.md §5 C17"),
     "C18": ("exploration",
             "Property-based exploration of pipes: generated source schemas and toggle histories (bursts from 1..3 goroutines, Multi states, args) x "
